@@ -40,6 +40,7 @@ typedef struct {
 typedef struct {
     jose_io_t io;
     bool all;
+    bool failed; /* all: a branch has failed, nothing can succeed any more */
     size_t nnexts;
     jose_io_t *nexts[];
 } io_plex_t;
@@ -250,6 +251,9 @@ plex_feed(jose_io_t *io, const void *in, size_t len)
     io_plex_t *i = containerof(io, io_plex_t, io);
     bool status = false;
 
+    if (i->failed)
+        return false;
+
     for (size_t j = 0; j < i->nnexts; j++) {
         bool s = false;
 
@@ -260,8 +264,10 @@ plex_feed(jose_io_t *io, const void *in, size_t len)
         status |= s;
         if (!s) {
             jose_io_auto(&i->nexts[j]);
-            if (i->all)
+            if (i->all) {
+                i->failed = true;
                 return false;
+            }
         }
     }
 
@@ -274,6 +280,9 @@ plex_done(jose_io_t *io)
     io_plex_t *i = containerof(io, io_plex_t, io);
     bool status = false;
 
+    if (i->failed)
+        return false;
+
     for (size_t j = 0; j < i->nnexts; j++) {
         bool s = false;
 
@@ -284,8 +293,10 @@ plex_done(jose_io_t *io)
         status |= s;
         if (!s) {
             jose_io_auto(&i->nexts[j]);
-            if (i->all)
+            if (i->all) {
+                i->failed = true;
                 return false;
+            }
         }
     }
 
